@@ -2,7 +2,7 @@
    (PrintParseProofs) and the normal-form lemmas (NormProofs) put together, plus the glue between
    the side conditions the three developments use. *)
 From JP Require Import Base Json PyStr Syntax Lex Parse Eval Serialize TokPrint Printable Reparsable Gate
-                       ParseProofs NormDomain NormProofs PrintParseProofs PrintLexProofs.
+                       ParseProofs NormDomain TokensOk NormProofs SpellingProofs PrintParseProofs PrintLexProofs.
 
 (* ---- Reparsable (shape of what the parser builds) implies NormProofs.bare_ok ------------------ *)
 Section Glue.
@@ -79,10 +79,10 @@ Proof.
   repeat split; assumption.
 Qed.
 
-(* the string form compiles, to the normal form *)
-Theorem roundtrip :
+(* the string form compiles, to the normal form - for every admissible assignment of spellings *)
+Theorem roundtrip_env :
   forall (E : env) re_ok (q : query) (t : ustr),
-    default_tokens E -> e_well_typed E = true -> e_unicode_escape E = true ->
+    tokens_ok E = true -> e_well_typed E = true -> e_unicode_escape E = true ->
     c10_domain E re_ok q = true ->
     query_text E q = Ok t ->
     compile E re_ok t = Ok (norm_query q).
@@ -90,9 +90,17 @@ Proof.
   intros E ro q t HE WT UE HD Ht.
   destruct (c10_domain_parts _ _ _ HD) as [Hg [Hp [Hr _]]].
   destruct (text_toks_ok E q t Ht) as [ts Hts].
-  unfold compile. rewrite (lex_print_reparsable E ro q t ts HE Hp Hr Ht Hts).
+  unfold compile. rewrite (lex_print_env E ro q t ts HE Hp Hr Ht Hts).
   apply parse_print; assumption.
 Qed.
+
+Theorem roundtrip :
+  forall (E : env) re_ok (q : query) (t : ustr),
+    default_tokens E -> e_well_typed E = true -> e_unicode_escape E = true ->
+    c10_domain E re_ok q = true ->
+    query_text E q = Ok t ->
+    compile E re_ok t = Ok (norm_query q).
+Proof. intros E ro q t HE. apply roundtrip_env. apply default_tokens_ok. exact HE. Qed.
 
 (* the string form is a fixed point: printing what it compiles to gives the same text *)
 Theorem fixed_point :
@@ -106,10 +114,10 @@ Proof.
 Qed.
 
 (* the normal form is again in the domain (so the round trip can be iterated), and is normal *)
-Theorem domain_stable :
+Theorem domain_stable_env :
   forall (E : env) re_ok (q : query),
     in_range (e_min_index E) (e_max_index E) 1%Z = true ->
-    e_well_typed E = true -> e_unicode_escape E = true -> default_tokens E ->
+    e_well_typed E = true -> e_unicode_escape E = true -> tokens_ok E = true ->
     c10_domain E re_ok q = true ->
     forall t, query_text E q = Ok t ->
     c10_domain E re_ok (norm_query q) = true /\ norm_query (norm_query q) = norm_query q.
@@ -122,8 +130,17 @@ Proof.
   unfold c10_domain. rewrite Hg', Hp', Hf'. cbn [andb]. rewrite andb_true_r.
   (* the normal form is what the parser built from the string form *)
   apply (compiled_reparsable E ro t (norm_query q) H1).
-  apply (roundtrip E ro q t HE WT UE HD Ht).
+  apply (roundtrip_env E ro q t HE WT UE HD Ht).
 Qed.
+
+Theorem domain_stable :
+  forall (E : env) re_ok (q : query),
+    in_range (e_min_index E) (e_max_index E) 1%Z = true ->
+    e_well_typed E = true -> e_unicode_escape E = true -> default_tokens E ->
+    c10_domain E re_ok q = true ->
+    forall t, query_text E q = Ok t ->
+    c10_domain E re_ok (norm_query q) = true /\ norm_query (norm_query q) = norm_query q.
+Proof. intros E ro q H1 WT UE HE. apply domain_stable_env; auto. apply default_tokens_ok. exact HE. Qed.
 
 (* every compiled query is in the domain, up to the two float conditions (which the run-time
    correspondence evaluates on every compiled query: Extract.v exports floats_ok / floats_stable) *)
@@ -163,4 +180,61 @@ Proof.
   - intros rf rs d ctx. apply norm_equiv.
   - apply (fixed_point default_env ro q t HD Ht).
   - apply (proj1 (domain_stable default_env ro q H1 eq_refl eq_refl default_env_tokens HD t Ht)).
+Qed.
+
+
+(* ---- C17: any admissible assignment of spellings -------------------------------------------- *)
+(* the string form produced by an environment recompiles in that environment to an equivalent
+   query with the same string form *)
+Theorem string_form_env :
+  forall (E : env) re_ok (text : ustr) (q : query) (t : ustr),
+    tokens_ok E = true -> e_well_typed E = true -> e_unicode_escape E = true ->
+    in_range (e_min_index E) (e_max_index E) 1%Z = true ->
+    compile E re_ok text = Ok q ->
+    floats_ok q = true -> floats_stable q = true ->
+    query_text E q = Ok t ->
+    exists q',
+      compile E re_ok t = Ok q' /\
+      (forall rf rs d ctx, compound_finditer E rf rs q' d ctx = compound_finditer E rf rs q d ctx) /\
+      query_text E q' = Ok t /\
+      c10_domain E re_ok q' = true.
+Proof.
+  intros E ro text q t HE WT UE H1 Hc Hfo Hfs Ht.
+  pose proof (compiled_domain_partial E ro text q H1 WT Hc Hfo Hfs) as HD.
+  exists (norm_query q). split; [|split; [|split]].
+  - apply (roundtrip_env E ro q t HE WT UE HD Ht).
+  - intros rf rs d ctx. apply norm_equiv.
+  - apply (fixed_point E ro q t HD Ht).
+  - apply (proj1 (domain_stable_env E ro q H1 WT UE HE HD t Ht)).
+Qed.
+
+(* one query, written with the spellings of two environments: both texts compile, in their own
+   environment, to the same compiled query, whose matches have the same values in both (and the
+   same locations when the keys-selector spelling, which shows inside the location of a key match,
+   is the same) *)
+Theorem rename :
+  forall (E E0 : env) re_ok (q : query) (t t0 : ustr),
+    tokens_ok E = true -> tokens_ok E0 = true ->
+    e_well_typed E = true -> e_unicode_escape E = true ->
+    e_well_typed E0 = true -> e_unicode_escape E0 = true ->
+    c10_domain E re_ok q = true -> c10_domain E0 re_ok q = true ->
+    query_text E q = Ok t -> query_text E0 q = Ok t0 ->
+    exists q',
+      compile E re_ok t = Ok q' /\ compile E0 re_ok t0 = Ok q' /\
+      (forall rf rs d ctx,
+         on_ok (map m_val) (compound_finditer E rf rs q' d ctx) =
+         on_ok (map m_val) (compound_finditer E0 rf rs q' d ctx)) /\
+      (e_keys E = e_keys E0 ->
+       forall rf rs d ctx,
+         on_ok (map (fun m => (m_parts m, m_val m))) (compound_finditer E rf rs q' d ctx) =
+         on_ok (map (fun m => (m_parts m, m_val m))) (compound_finditer E0 rf rs q' d ctx)) /\
+      (forall rf rs d ctx, compound_finditer E rf rs q' d ctx = compound_finditer E rf rs q d ctx).
+Proof.
+  intros E E0 ro q t t0 HE HE0 WT UE WT0 UE0 HD HD0 Ht Ht0.
+  exists (norm_query q). split; [|split; [|split; [|split]]].
+  - apply (roundtrip_env E ro q t HE WT UE HD Ht).
+  - apply (roundtrip_env E0 ro q t0 HE0 WT0 UE0 HD0 Ht0).
+  - intros rf rs d ctx. apply values_independent.
+  - intros Hk rf rs d ctx. apply nodes_independent. exact Hk.
+  - intros rf rs d ctx. apply norm_equiv.
 Qed.
